@@ -469,7 +469,9 @@ EXTRA = {
     'C04': ' Functional arithmetic (scalings, sums, translations) is '
            'normalised like operator arithmetic.  Leaf operators with domain '
            '= range: no aliased leaf call on a fresh out (R3), out aliased '
-           '(R3a), two element objects over one buffer (R3s).',
+           '(R3a), two element objects over one buffer (R3s); R3e: nonlinear '
+           'built-ins evaluated with out aliased to the input; nested '
+           'vector shifts (op + v) + w keep both vectors.',
     'C02': ' BLAS dot / dotc modelled, large-array regime with an admitting '
            'guard; R4c cell sides / cell volume through the real properties '
            'with tolerance tests explored both ways.',
@@ -538,7 +540,9 @@ EXTRA = {
            'limit arguments on a 2-d grid; the index normaliser is interpreted '
            'on every slice form (R3b); nonuniform_partition on products of '
            'axes of different lengths; uniform_partition_fromintv forwards '
-           'interval / shape / per-side flags.',
+           'interval / shape / per-side flags.  R1u: the uniformity flag of '
+           'a partition is invariant under translation of the grid; R1o: '
+           'interval products own their limit arrays.',
     'C15': ' The dtype rule also runs through the public factories and '
            'tracks fractional information through casts; complex constant '
            'callables; element() owns its data (R4c); R1L: the interpolators '
@@ -568,11 +572,15 @@ EXTRA = {
            '(R8); off-centre volumes among the coverage witnesses; R9 '
            'rotation_matrix_from_to at rational vector pairs; R8b flat '
            'detector normals; R4m no in-place accumulation into aliased '
-           'constructor arguments.',
+           'constructor arguments; R9b: the alignment shortcut of '
+           'transform_system compares quantities of first order in the '
+           'tilt.',
     'C20': ' TensorSpace._astype is evaluated over weighting kinds, '
            'exponents and target dtypes (R7d); slicing of weighted spaces '
            '(R7e); R7f product-space element indexing against NumPy '
-           'indexing of the stacked array, component weights kept.',
+           'indexing of the stacked array, component weights kept; R1c no '
+           'id() of a value-compared component in a hash key; R5 '
+           'containment tests are symmetric in the compared types.',
 }
 
 NOT_YET = 'check not implemented yet in this commit (DESIGN.md section 6 build order)'
